@@ -77,7 +77,8 @@ def check(spec, ctx):
     finals = {c["name"]: b.comps[c["name"]].time for c in models}
     from .. import h_slot as hs
 
-    over = [hs.mins(t) - end for t in finals.values()]
+    with S.tick_of(spec):
+        over = [hs.mins(t) - end for t in finals.values()]
     overshoot = len(models) >= 2 and max(over) > min(min(c["steps"]) for c in models)
     ctx.nontrivial(len(spec["comps"]) >= 3 and (off_grid or late or overshoot))
     if late:
